@@ -9,7 +9,7 @@
      Block   <<"p", <<I..>>>> | <<"h", level, <<I..>>>> | <<"ul", << <<B..>> .. >>>>
            | <<"tbl", << << <<B..>> .. >> .. >>>>   (rows of cells of blocks)
            | <<"sdt", <<B..>>>> | <<"tbx", <<B..>>>>
-     Inline  <<"r", id>> | <<"tab">> | <<"br">> | <<"a", <<I..>>>> | <<"ins", <<I..>>>>
+     Inline  <<"r", id>> | <<"tab">> | <<"br">> | <<"sp">> (a blank between two runs: a text node of its own) | <<"a", <<I..>>>> | <<"ins", <<I..>>>>
            | <<"del", <<I..>>>> | <<"isdt", <<I..>>>> | <<"fn", id>> | <<"cm", id>>
    Text leaves are token ids (rendered as unmistakable words by the writers).
 
@@ -42,6 +42,7 @@ RECURSIVE FlatInls(_, _), FlatBlocks(_, _)
 FlatInl(i, ctx) ==
     CASE i[1] = "r"    -> << <<"t", i[2], ctx.cls, ctx.marks>> >>
       [] i[1] = "tab"  -> Soft
+      [] i[1] = "sp"   -> Soft
       [] i[1] = "br"   -> Soft
       [] i[1] = "a"    -> FlatInls(i[2], Enter(ctx, "LINK"))
       [] i[1] = "ins"  -> FlatInls(i[2], Enter(ctx, "INS"))
